@@ -17,6 +17,8 @@ import (
 	"io"
 	"math/big"
 	"net"
+	"net/http"
+	"net/http/httptest"
 	"net/netip"
 	"os"
 	"os/exec"
@@ -43,10 +45,11 @@ const (
 	c10Tick
 	c10Restart
 	c10Busy
+	c10SetConfig
 )
 
 var c10KindNames = []string{"discover", "request", "decline", "release", "static-add",
-	"static-update", "static-remove", "tick", "restart", "probe-set"}
+	"static-update", "static-remove", "tick", "restart", "probe-set", "set-config"}
 
 // c10Op is one step of a history.  Addresses are host-order uint32, 0 = the
 // option / field is absent (sid, reqip) or unspecified (ciaddr).
@@ -57,6 +60,10 @@ type c10Op struct {
 	MacLen int `json:"maclen,omitempty"`
 	// On, for c10Busy: the address IP starts (true) / stops answering probes.
 	On bool `json:"on,omitempty"`
+	// PoolStart, PoolEnd, for c10SetConfig: the pool of the new configuration
+	// (same gateway, subnet and lease time; "enabled": false).
+	PoolStart uint32 `json:"pool_start,omitempty"`
+	PoolEnd   uint32 `json:"pool_end,omitempty"`
 	HasSID bool   `json:"has_sid,omitempty"`
 	SID    uint32 `json:"sid,omitempty"`
 	HasReq bool   `json:"has_req,omitempty"`
@@ -573,6 +580,23 @@ func (w *c10World) apply(o c10Op) (r c10Reply, panicked string) {
 		}
 		w.create()
 		r = c10Reply{Code: 4}
+	case c10SetConfig:
+		cf := w.conf
+		mask := ^(cf.SubHi - cf.SubLo)
+		body := fmt.Sprintf(`{"enabled":false,"v4":{"gateway_ip":%q,"subnet_mask":%q,"range_start":%q,"range_end":%q,"lease_duration":%d}}`,
+			c10Addr(cf.GW), c10Addr(mask), c10Addr(o.PoolStart), c10Addr(o.PoolEnd), cf.LeaseSec)
+		rec := httptest.NewRecorder()
+		w.srv.handleDHCPSetConfig(rec, httptest.NewRequest(http.MethodPost, "/control/dhcp/set_config", strings.NewReader(body)))
+		r = c10Reply{Code: 3}
+		if rec.Code == http.StatusOK {
+			r.Code = 2
+			w.conf.Start, w.conf.End = o.PoolStart, o.PoolEnd
+		}
+		// The handler replaced the server (also when it failed late).
+		w.s4 = w.srv.srv4.(*v4Server)
+		if w.s4.conf != nil {
+			w.s4.conf.dnsIPAddrs = []netip.Addr{c10Addr(cf.Self)}
+		}
 	case c10Busy:
 		if c10Probe {
 			if err := c10SetLo(o.IP, o.On); err != nil {
@@ -691,9 +715,9 @@ func (g *c10Gen) anyIP() uint32 {
 	case 1:
 		return cf.SubHi + 5 // outside the subnet
 	case 2, 3:
-		return cf.End + 1 + uint32(g.r.Intn(int(cf.SubHi-cf.End))) // in subnet, above the pool
+		return cf.End + 1 + uint32(g.r.Intn(int(cf.SubHi-cf.End)+1)) // above the pool (mostly in the subnet)
 	case 4:
-		return cf.SubLo + uint32(g.r.Intn(int(cf.Start-cf.SubLo))) // below the pool
+		return cf.SubLo + uint32(g.r.Intn(int(cf.Start-cf.SubLo)+1)) // below the pool (or its first address)
 	default:
 		return cf.Start + uint32(g.r.Intn(int(cf.End-cf.Start+1)))
 	}
@@ -786,6 +810,26 @@ func (g *c10Gen) op() (o c10Op) {
 		o.Mac = 0
 		o.IP = g.conf.Start + uint32(g.r.Intn(int(g.conf.End-g.conf.Start+1)))
 		o.On = g.r.Chance(2, 3)
+	case x < 97:
+		o.Kind = c10SetConfig
+		o.Mac = 0
+		cf := g.conf
+		o.PoolStart, o.PoolEnd = cf.Start, cf.End
+		switch g.r.Intn(8) {
+		case 0, 1, 2: // the same pool
+		case 3: // the gateway inside / on the edge of the pool
+			o.PoolStart = cf.GW - uint32(g.r.Intn(2))
+			o.PoolEnd = o.PoolStart + 1 + uint32(g.r.Intn(3))
+		case 4: // not a range, or beyond the subnet
+			if g.r.Bool() {
+				o.PoolStart, o.PoolEnd = cf.End, cf.Start+uint32(g.r.Intn(2))
+			} else {
+				o.PoolEnd = cf.SubHi + 1 + uint32(g.r.Intn(3))
+			}
+		default: // another pool in the same network
+			o.PoolStart = cf.SubLo + 3 + uint32(g.r.Intn(5))
+			o.PoolEnd = o.PoolStart + 1 + uint32(g.r.Intn(5))
+		}
 	default:
 		o.Kind = c10Restart
 		o.Mac = 0
@@ -839,6 +883,8 @@ func (e *c10Enc) op(o c10Op) string {
 		return vfApp("EStaticRemove", m, vfN(uint64(o.IP)), e.host(o.Host)+"%N")
 	case c10Tick, c10Busy:
 		return "ETick"
+	case c10SetConfig:
+		return vfApp("ESetConfig", vfN(uint64(o.PoolStart)), vfN(uint64(o.PoolEnd)))
 	}
 	return "ERestart"
 }
@@ -864,7 +910,7 @@ func c10Run(t *testing.T, out *vfOut, h c10History) {
 		}
 	}
 	w.create()
-	cf := h.conf
+	cf, cf0 := h.conf, h.conf
 
 	var probeIPs []uint32
 	for ip := cf.SubLo; ip <= cf.SubHi; ip++ {
@@ -921,6 +967,10 @@ func c10Run(t *testing.T, out *vfOut, h c10History) {
 	var desc []descStep
 	nontrivial := false
 	diskCurrent := true // the file agreed with memory after the previous step
+	// diskExcused: a set_config with another pool dropped leases the new pool
+	// cannot hold; the file keeps listing them until the next store, so until
+	// then an operation that changes nothing need not make the file current.
+	diskExcused := false
 
 	for i := 0; ; i++ {
 		var o c10Op
@@ -936,6 +986,7 @@ func c10Run(t *testing.T, out *vfOut, h c10History) {
 			break
 		}
 		omac := c10FromMAC(o.hw())
+		cf = w.conf
 		before := w.table()
 		probesBefore := w.probes(probeIPs, probeHosts)
 		hadLease := false
@@ -979,6 +1030,8 @@ func c10Run(t *testing.T, out *vfOut, h c10History) {
 		if h.seen != nil {
 			h.seen(o, r)
 		}
+		cfBefore := cf
+		cf = w.conf
 		after := w.table()
 		sorted := append([]c10Lease(nil), after...)
 		c10SortLeases(sorted)
@@ -1028,7 +1081,7 @@ func c10Run(t *testing.T, out *vfOut, h c10History) {
 					sa = append(sa, l)
 				}
 			}
-			if !c10SameLeases(sb, sa) && !(o.Kind == c10Restart && !diskCurrent) {
+			if !c10SameLeases(sb, sa) && !((o.Kind == c10Restart || o.Kind == c10SetConfig) && !diskCurrent) {
 				fail(i, "reservation-changed", "static leases changed from %v to %v without the static-lease API", sb, sa)
 			}
 		}
@@ -1080,7 +1133,15 @@ func c10Run(t *testing.T, out *vfOut, h c10History) {
 		if o.Kind == c10Restart {
 			// The reloaded table is what the file listed, which is what memory
 			// held; the DNS-facing answers are the same.
-			if !c10SameLeases(diskBefore, after) {
+			// (After a set_config with another pool the file may still list
+			// dynamic leases the pool cannot hold: those are not reloaded.)
+			var loadable []c10Lease
+			for _, l := range diskBefore {
+				if l.Kind == 0 || (l.IP >= cf.Start && l.IP <= cf.End) || !diskExcused {
+					loadable = append(loadable, l)
+				}
+			}
+			if !c10SameLeases(loadable, after) {
 				fail(i, "reload-differs-from-file", "reloaded table %v differs from leases.json %v", sorted, diskBefore)
 			} else if diskCurrent && !c10SameLeases(before, after) {
 				fail(i, "reload-differs", "table after restart %v differs from before %v", sorted, before)
@@ -1090,12 +1151,39 @@ func c10Run(t *testing.T, out *vfOut, h c10History) {
 					fail(i, "reload-answers-differ", "HostByIP/IPByHost after restart %s, before %s", pa, probesBefore)
 				}
 			}
+		} else if o.Kind == c10SetConfig {
+			// Accepted: new servers, the table is what the file listed, minus the
+			// dynamic leases the new pool cannot hold; the DNS-facing answers
+			// for what is kept are the same.  Rejected: nothing changes.
+			if r.Code == 2 {
+				var want []c10Lease
+				for _, l := range diskBefore {
+					if l.Kind == 0 || (l.IP >= cf.Start && l.IP <= cf.End) {
+						want = append(want, l)
+					}
+				}
+				if !c10SameLeases(want, after) {
+					fail(i, "setconfig-reload", "after set_config the table is %v, leases.json listed %v (pool now %s-%s)",
+						sorted, diskBefore, c10Addr(cf.Start), c10Addr(cf.End))
+				} else if diskCurrent && len(want) == len(diskBefore) {
+					if pa := w.probes(probeIPs, probeHosts); pa != probesBefore {
+						fail(i, "setconfig-answers-differ", "HostByIP/IPByHost after set_config %s, before %s", pa, probesBefore)
+					}
+				}
+			} else if changed {
+				fail(i, "setconfig-rejected-changed", "rejected set_config changed the table from %v to %v", before, sorted)
+			}
 		} else if (changed || !diskCurrent) && !sameAsMem && (haveDisk || len(after) > 0) {
-			if o.Kind != c10Tick {
+			if o.Kind != c10Tick && !(diskExcused && !changed) {
 				fail(i, "disk-stale-"+c10KindNames[o.Kind], "after the step leases.json lists %v, memory holds %v", disk, sorted)
 			}
 		}
 		diskCurrent = sameAsMem || (!haveDisk && len(after) == 0)
+		if o.Kind == c10SetConfig && r.Code == 2 && !diskCurrent {
+			diskExcused = true
+		} else if diskCurrent {
+			diskExcused = false
+		}
 
 		// ---- classes
 		cl := c10KindNames[o.Kind]
@@ -1147,6 +1235,17 @@ func c10Run(t *testing.T, out *vfOut, h c10History) {
 				if j < len(before) && before[j].Kind == 1 && l.Kind == 2 {
 					cl = "tick-expire"
 				}
+			}
+		case c10SetConfig:
+			switch {
+			case r.Code != 2:
+				cl += "-rejected"
+			case cf.Start == cfBefore.Start && cf.End == cfBefore.End:
+				cl += "-same"
+			case len(after) < len(before):
+				cl += "-pool-dropped"
+			default:
+				cl += "-pool"
 			}
 		}
 		classes[cl] = true
@@ -1222,10 +1321,10 @@ func c10Run(t *testing.T, out *vfOut, h c10History) {
 		ph[i] = vfBytes(n)
 	}
 	c := vfCase{
-		Coq:        vfApp("C10.Case", cf.coq(), vfList("bytes", ph), vfNat(nProbe), vfZ(t0), vfList("stepobs", steps)),
+		Coq:        vfApp("C10.Case", cf0.coq(), vfList("bytes", ph), vfNat(nProbe), vfZ(t0), vfList("stepobs", steps)),
 		Nontrivial: nontrivial,
 		MonitorOK:  len(fails) == 0,
-		Desc:       map[string]any{"tag": h.tag, "pool": fmt.Sprintf("%s-%s", c10Addr(cf.Start), c10Addr(cf.End)), "steps": desc},
+		Desc:       map[string]any{"tag": h.tag, "pool": fmt.Sprintf("%s-%s", c10Addr(cf0.Start), c10Addr(cf0.End)), "steps": desc},
 	}
 	for k := range classes {
 		c.Classes = append(c.Classes, k)
@@ -1242,7 +1341,7 @@ func c10Run(t *testing.T, out *vfOut, h c10History) {
 		c.MonitorMsg = strings.Join(msgs, "; ")
 		// keep the replay short: cut the description after the failing step
 		if failStep >= 0 && failStep+1 < len(desc) {
-			c.Desc = map[string]any{"tag": h.tag, "pool": fmt.Sprintf("%s-%s", c10Addr(cf.Start), c10Addr(cf.End)), "steps": desc[:failStep+1]}
+			c.Desc = map[string]any{"tag": h.tag, "pool": fmt.Sprintf("%s-%s", c10Addr(cf0.Start), c10Addr(cf0.End)), "steps": desc[:failStep+1]}
 		}
 	}
 	out.Emit(c)
@@ -1270,6 +1369,127 @@ func (w *c10World) probeLists(e *c10Enc, ips []uint32, hosts []string) (hbi, ibh
 	return c10Flat(a), c10Flat(b)
 }
 
+// c10EmitConf runs the real Validate on the four addresses of a configuration
+// and emits the comparison with the model's valid_conf_b (conf_of ...).  The
+// monitor is the property's own demand on a configuration the server runs
+// with: a proper range, gateway outside it, range inside the subnet.
+func c10EmitConf(out *vfOut, start, end, gw, mask uint32, tag string) (accepted bool) {
+	vc := &V4ServerConf{RangeStart: c10Addr(start), RangeEnd: c10Addr(end), GatewayIP: c10Addr(gw), SubnetMask: c10Addr(mask)}
+	accepted = vc.Validate() == nil
+	var lo, hi uint32
+	if accepted {
+		lo, hi = c10FromAddr(vc.subnet.Masked().Addr()), c10FromAddr(vc.broadcastIP)
+	}
+	cl := "conf-rejected"
+	ok := true
+	msg := ""
+	if accepted {
+		cl = "conf-accepted"
+		switch {
+		case start >= end:
+			ok, msg = false, "accepted although the range is empty or reversed"
+		case gw >= start && gw <= end:
+			ok, msg = false, "accepted although the gateway lies in the pool (a client can be given the gateway address)"
+		case start < lo || end > hi:
+			ok, msg = false, "accepted although the pool leaves the subnet"
+		}
+	}
+	pos := "gw-above"
+	switch {
+	case gw < start:
+		pos = "gw-below"
+	case gw == start:
+		pos = "gw-at-start"
+	case gw == end:
+		pos = "gw-at-end"
+	case gw < end:
+		pos = "gw-inside"
+	}
+	c := vfCase{
+		Coq: vfApp("C10.ConfCase", vfN(uint64(start)), vfN(uint64(end)), vfN(uint64(gw)), vfN(uint64(mask)), vfBool(accepted),
+			vfN(uint64(lo)), vfN(uint64(hi))),
+		Nontrivial: true,
+		Classes:    []string{cl, "conf-" + pos},
+		MonitorOK:  ok,
+		Desc: map[string]any{"tag": tag, "range_start": c10Addr(start).String(), "range_end": c10Addr(end).String(),
+			"gateway_ip": c10Addr(gw).String(), "subnet_mask": c10Addr(mask).String(), "accepted": accepted},
+	}
+	if !ok {
+		c.FindingKey, c.MonitorMsg = "conf-accepted-bad", fmt.Sprintf("configuration %v: %s", c.Desc, msg)
+	}
+	out.Emit(c)
+	return accepted
+}
+
+// c10ConfCases: constructed and generated configurations.
+func c10ConfCases(out *vfOut, r *vfRand, n int) {
+	base := uint32(192)<<24 | 168<<16 | 10<<8
+	m24 := uint32(0xFFFFFF00)
+	for _, k := range []struct {
+		tag                  string
+		start, end, gw, mask uint32
+	}{
+		{"gw-below", base + 100, base + 103, base + 1, m24},
+		{"gw-at-start", base + 100, base + 103, base + 100, m24},
+		{"gw-inside", base + 100, base + 103, base + 101, m24},
+		{"gw-at-end", base + 100, base + 103, base + 103, m24},
+		{"gw-above", base + 100, base + 103, base + 104, m24},
+		{"gw-last", base + 100, base + 103, base + 255, m24},
+		{"pool-on-subnet-edges", base, base + 255, base + 1, m24},
+		{"pool-first-addresses", base, base + 3, base + 9, m24},
+		{"pool-last-addresses", base + 250, base + 255, base + 1, m24},
+		{"start-equals-end", base + 100, base + 100, base + 1, m24},
+		{"start-after-end", base + 103, base + 100, base + 1, m24},
+		{"start-outside", base - 1, base + 100, base + 200, m24},
+		{"end-outside", base + 100, base + 256, base + 1, m24},
+		{"both-outside", base + 300, base + 400, base + 1, m24},
+		{"mask-30", base + 1, base + 2, base + 3, 0xFFFFFFFC},
+		{"mask-30-out", base + 1, base + 4, base + 3, 0xFFFFFFFC},
+		{"mask-16", base + 100, base + 1000, base + 1, 0xFFFF0000},
+		{"mask-0", 5, 0xFFFFFFF0, 1, 0},
+		{"mask-32", base + 1, base + 2, base + 1, 0xFFFFFFFF},
+		{"mask-not-canonical", base + 100, base + 103, base + 1, 0xFFFF00FF},
+		{"mask-not-canonical-far", 5, 0xFFFFFFF0, base + 1, 0xFF00FF00},
+	} {
+		c10EmitConf(out, k.start, k.end, k.gw, k.mask, k.tag)
+	}
+	for i := 0; i < n; i++ {
+		q := r.Fork(uint64(1000 + i))
+		bits := 20 + q.Intn(11)
+		mask := ^uint32(0) << (32 - bits)
+		if q.Chance(1, 12) {
+			mask = uint32(q.U64())
+		}
+		net := uint32(q.U64()) & mask
+		size := ^mask
+		pick := func() uint32 {
+			switch q.Intn(8) {
+			case 0:
+				return net - 1 - uint32(q.Intn(3))
+			case 1:
+				return net + size + 1 + uint32(q.Intn(3))
+			case 2:
+				return net
+			case 3:
+				return net + size
+			}
+			return net + uint32(q.Intn(int(size%4096)+1))
+		}
+		start, end, gw := pick(), pick(), pick()
+		switch q.Intn(6) {
+		case 0:
+			gw = start
+		case 1:
+			gw = end
+		case 2:
+			if end > start+1 {
+				gw = start + 1 + uint32(q.Intn(int(end-start-1)))
+			}
+		}
+		c10EmitConf(out, start, end, gw, mask, fmt.Sprintf("random-conf-%d", i))
+	}
+}
+
 func TestVerifC10(t *testing.T) {
 	log.SetOutput(io.Discard)
 	if os.Getenv("VERIF_C10_NETNS") != "" {
@@ -1288,6 +1508,7 @@ func TestVerifC10(t *testing.T) {
 	out.Note("icmp_probe", c10Probe)
 	rnd := vfNewRand(out.Seed)
 
+	c10ConfCases(out, rnd.Fork(4242), out.Scale(150, 3000))
 	m := []uint64{1, 2, 3, 4}
 	for _, h := range c10Prelude(m) {
 		c10Run(t, out, h)
@@ -1297,6 +1518,24 @@ func TestVerifC10(t *testing.T) {
 	for i := 0; i < n; i++ {
 		r := rnd.Fork(uint64(i))
 		cf := c10DefaultConf(3 + r.Intn(4))
+		// Other shapes of configuration: the gateway right above the pool, the
+		// pool on the last addresses of the subnet, and the gateway on the
+		// first / last pool address: run on whatever the real Validate accepts.
+		switch cr := r.Fork(99); cr.Intn(8) {
+		case 0:
+			cf.GW = cf.End + 1
+		case 1:
+			d := cf.SubHi - cf.End
+			cf.Start, cf.End = cf.Start+d, cf.End+d
+		case 2:
+			cf.GW = cf.Start
+			if cr.Bool() {
+				cf.GW = cf.End
+			}
+		}
+		if !c10EmitConf(out, cf.Start, cf.End, cf.GW, ^(cf.SubHi - cf.SubLo), fmt.Sprintf("conf-of-random-%d", i)) {
+			continue
+		}
 		g := &c10Gen{r: r, conf: cf, macs: m, last: map[uint64]uint32{}, genNames: os.Getenv("VERIF_C10_GENNAMES") != "0"}
 		steps := 5 + r.Intn(56)
 		h := c10History{conf: cf, tag: fmt.Sprintf("random-%d", i)}
@@ -1314,6 +1553,8 @@ func TestVerifC10(t *testing.T) {
 		h.seen = func(o c10Op, r c10Reply) {
 			if r.Code == 1 && r.YI != 0 {
 				g.last[o.Mac] = r.YI
+			} else if r.Code == 2 && o.Kind == c10SetConfig {
+				g.conf.Start, g.conf.End = o.PoolStart, o.PoolEnd
 			} else if r.Code == 2 && o.Kind != c10StaticRemove {
 				g.last[o.Mac] = o.IP
 			}
@@ -1393,6 +1634,11 @@ func c10Prelude(m []uint64) (hs []c10History) {
 		busyOn(s+2), dec(1, s+2), disc(1))
 	addP("blocklist-reused", []uint32{s}, disc(1), sel(1, s+1, "a"), disc(2), sel(2, s+2, "b"), tick(3700), busyOff(s), disc(3),
 		sel(3, s, "c"), restart)
+	setc := func(a, b uint32) c10Op { return c10Op{Kind: c10SetConfig, PoolStart: a, PoolEnd: b} }
+	add("set-config", disc(1), sel(1, s, "alpha"), st(c10StaticAdd, 2, cf.End+3, "nas"), disc(3), sel(3, s+1, "gamma"),
+		setc(s, cf.End), renew(1, s, "alpha"), setc(s+1, cf.End+2), disc(1), sel(1, s+2, "alpha"), disc(4),
+		setc(cf.GW, cf.GW+2), setc(cf.GW-1, cf.GW), setc(cf.End, s), setc(s, cf.SubHi+1), setc(s+1, cf.End+2), restart,
+		setc(cf.End+3, cf.End+5), st(c10StaticRemove, 2, cf.End+3, "nas"), restart)
 	lcf := c10LoopConf(3)
 	ls := lcf.Start
 	lsel := func(mac uint64, ip uint32, host string) c10Op {
